@@ -14,7 +14,7 @@ from collections import Counter
 
 from hypothesis import strategies as st
 
-from vlib import sched, sut, vtree
+from vlib import gen, sched, sut, vtree
 from vlib.core import Stage, fail
 
 ID = "C15"
@@ -186,7 +186,15 @@ def strategy(tier):
         for kind, node, _ in vtree.nodes(tree):
             if kind == "ft":
                 counter += 1
-                choice = draw(st.sampled_from(["text", "text", "text", "ok", "date", "long"]))
+                choice = draw(st.sampled_from(["text", "text", "text", "ok", "date", "long", "padded"]))
+                if choice == "padded":
+                    # the entered input is the text as it is: blanks, line ends and control characters around it belong to it
+                    core = draw(st.sampled_from(["", f"p{counter}", f"100% {{{counter}}}"]))
+                    if core:
+                        node["inp"] = draw(st.sampled_from(gen.PADDINGS)) + core + draw(st.sampled_from(gen.PADDINGS))
+                    else:
+                        node["inp"] = draw(st.sampled_from([" ", "\t", "\n", "\u00a0", "\x1f"])) * counter
+                    continue
                 if choice == "long":
                     # free texts may be long (FTX: 512 characters); the harness's constraints depend on the whole text
                     node["inp"] = f"L{counter}-" + "abcdefghijklmnopqrstuvwxyz" * draw(st.sampled_from([10, 20, 40]))
